@@ -115,6 +115,10 @@ def fresh_on_manifold(w, G, name):
 def verdict(rep, rule, instance, A, B, quats=(), where=None, what="", unknown_ok=False, fact=None):
     """Compare two matrices; record ok / fail / incomplete.  Returns the verdict string."""
     v, d = decide_mat(A, B, quats)
+    if v == UNKNOWN and A.shape == B.shape and any(a.kind == "sign" for M in (A, B) for p_ in M.flat() for a in all_atoms(p_)):
+        # sign(x) of an input: decided on x > 0, x < 0 and on the hyperplane x = 0 (where sign is 0) separately
+        from .liecommon import decide_by_cases
+        v, d = decide_by_cases(A, B, quats)
     if v == EQUAL:
         rep.ok(rule, instance, fact=fact or {"equal_cells": A.r * A.c})
     elif v == DIFFERENT:
